@@ -28,6 +28,8 @@ REVIEWED_NO_IFILTER = {
 }
 # built-in steps of the interpolatable TTF pipeline that go through a plain (non-I) filter
 SAFE_PER_MASTER = {"ReverseContourDirectionFilter"}
+# per-master filters the interpolatable pre-processors add themselves (through a helper), reviewed
+REVIEWED_DEFAULT_PER_MASTER = {"ExplodeColorLayerGlyphsFilter": "copies whole colour-layer glyphs of each master under names derived from font-level data: the point structure of what it adds follows the sources"}
 
 
 def filter_classes(prog) -> List[ClassInfo]:
@@ -139,13 +141,24 @@ def r091(prog, chk):
                 ok = ix.is_subclass(f, BASE_IFILTER) or f.name in SAFE_PER_MASTER
                 chk.ob("R09.1", f"{m.short}|self._run({f.name}(...))", ok, where(m, c), detail="interpolatable filter" if ix.is_subclass(f, BASE_IFILTER) else f"reviewed: {REVIEWED_NO_IFILTER.get(f.name, '')}",
                        message=f"{m.short} runs the per-master filter {f.name} as a built-in step of the interpolatable pipeline")
-            for c in [c for c in A.body_nodes(m.node) if isinstance(c, ast.Call) and isinstance(c.func, ast.Attribute) and c.func.attr == "append" and c.args and isinstance(c.args[0], ast.Call)]:
-                ts, how = prog.resolve_callee(m, c.args[0].func)
+            # the filter list can also be filled by a module-level helper it is handed to
+            scopes = [m]
+            for c in A.body_nodes(m.node):
+                if isinstance(c, ast.Call) and isinstance(c.func, ast.Name):
+                    try:
+                        ts_, how_ = prog.resolve_callee(m, c.func)
+                    except Exception:
+                        continue
+                    scopes += [t for t in ts_ if isinstance(t, FuncInfo) and t.cls is None and t.module is m.module and not isinstance(t.node, ast.Lambda)] if how_ == "exact" else []
+            for scope, c in [(sc_, c) for sc_ in scopes for c in A.body_nodes(sc_.node) if isinstance(c, ast.Call) and isinstance(c.func, ast.Attribute) and c.func.attr == "append" and c.args and isinstance(c.args[0], ast.Call)]:
+                ts, how = prog.resolve_callee(scope, c.args[0].func)
                 fcls = [t for t in ts if isinstance(t, ClassInfo) and ix.is_subclass(t, BASE_FILTER)]
                 for f in fcls:
                     n += 1
-                    ok = ix.is_subclass(f, BASE_IFILTER) or _sibling(prog, f) is not None or f.name in SAFE_PER_MASTER
-                    chk.ob("R09.1", f"{m.short}|default filter {f.name}", ok, where(m, c), detail="has an interpolatable sibling (merged by _run)",
+                    ok = ix.is_subclass(f, BASE_IFILTER) or _sibling(prog, f) is not None or f.name in SAFE_PER_MASTER or f.name in REVIEWED_DEFAULT_PER_MASTER
+                    if f.name in REVIEWED_DEFAULT_PER_MASTER:
+                        chk.exempt("R09.1", f"{m.short}|default filter {f.name}", REVIEWED_DEFAULT_PER_MASTER[f.name])
+                    chk.ob("R09.1", f"{m.short}|default filter {f.name}" + ("" if scope is m else f" (via {scope.short})"), ok, where(scope, c), detail="has an interpolatable sibling (merged by _run)",
                            message=f"{m.short} adds the per-master filter {f.name} (no interpolatable sibling) to the default filters of an interpolatable pipeline")
     check_nonmatching_components(prog, chk, "R09.1")
     chk.minimum("R09.1", 10)
@@ -606,6 +619,9 @@ def r0912(prog, chk):
 
 
 MUTANTS = [
+    M("overlap removal wired into the interpolatable CFF pre-processor through a shared helper (seeded C09l)", "ufo2ft/preProcessor.py", "OTFInterpolatablePreProcessor.initDefaultFilters",
+      "filters.append(decompose)", "filters.append(decompose)\n_init_remove_overlaps_filter(filters)", rule="R09.1",
+      also=(("ufo2ft/preProcessor.py", "", "<append-module>", "def _init_remove_overlaps_filter(filters):\n    from ufo2ft.filters.removeOverlaps import RemoveOverlapsFilter\n    filters.append(RemoveOverlapsFilter())\n"),)),
     M("2x2 mismatch check skipped when the first master's components are all plain (seeded C10k)", "ufo2ft/preProcessor.py", "TTFInterpolatablePreProcessor.check_for_nonmatching_components",
       "if not any(component_counts):\n    continue", "if not any(component_counts):\n    continue\nif all((c.transformation[0:4] == (1, 0, 0, 1) for c in layers[0].components)):\n    continue", rule="R09.1"),
     M("components with a singular transformation are dropped instead of drawn (seeded C09k)", "ufo2ft/util.py", "decomposeCompositeGlyph",
